@@ -439,6 +439,21 @@ func (p *sparser) postfix() SExpr {
 		case p.isOp("("):
 			p.pos++
 			var args []SExpr
+			if id, ok := x.(*SIdent); ok && (id.Name == "zero" || id.Name == "max" || id.Name == "min") && (p.isOp("[") || p.isOp("*")) {
+				// zero([32]byte), zero(*T), zero([]T): a type expression, kept as text for resolveType
+				var sb strings.Builder
+				depth := 0
+				for !(p.isOp(")") && depth == 0) {
+					t := p.next()
+					if t.kind == "op" && t.val == "(" {
+						depth++
+					} else if t.kind == "op" && t.val == ")" {
+						depth--
+					}
+					sb.WriteString(t.val)
+				}
+				args = append(args, &SIdent{sb.String()})
+			}
 			for !p.isOp(")") {
 				args = append(args, p.expr())
 				if p.isOp(",") {
